@@ -48,7 +48,9 @@ def _hist(rng):
     return dict(kind='hist', evs=evs)
 
 
-QUERIES = ['getTimes', 'val2idx_nearest', 'val2idx_bounds', 'val2idx_exact', 'repr', 'save', 'slice_dim', 'getvarpnc',
+TIMEQ = ['getTimes', 'getTimes_bounds', 'getTimes_tb', 'getTimes_tflag', 'getTimes_tau0', 'getTimes_dt64',
+         'time2t_nearest', 'time2t_bounds', 'time2t_bounds_close']
+QUERIES = TIMEQ + ['val2idx_nearest', 'val2idx_bounds', 'val2idx_exact', 'repr', 'save', 'slice_dim', 'getvarpnc',
            'pncrename', 'eval_bare', 'eval_expr']
 
 
@@ -154,11 +156,21 @@ def _query(f, q, spec):
     import PseudoNetCDF as pnc
     from PseudoNetCDF.core import _functions as F
     coords = [v['name'] for v in spec['vars'] if v['dims'] == [v['name']]]
-    if q == 'getTimes':
+    if q in TIMEQ:
         import datetime
+        if q == 'getTimes_dt64':
+            f.getTimes(datetype='datetime64[s]')
+            return None
         ts = f.getTimes()
-        f.time2idx([ts[0], ts[-1] + datetime.timedelta(hours=3)], dim='time')
-        f.date2num([ts[0], ts[-1]], timekey='time')
+        if q in ('getTimes_bounds', 'getTimes_tb', 'getTimes_tflag', 'getTimes_tau0'):
+            f.getTimes(bounds=True)
+            f.getTimes(bounds=True)
+        if q.startswith('time2t'):
+            f.time2t([ts[0], ts[-1] + datetime.timedelta(hours=3)], ttype=q[7:], index=True)
+            f.time2t([ts[0]], ttype=q[7:], index=False)
+        if 'time' in f.variables:
+            f.time2idx([ts[0], ts[-1] + datetime.timedelta(hours=3)], dim='time')
+            f.date2num([ts[0], ts[-1]], timekey='time')
         return None
     if q.startswith('val2idx'):
         if not coords:
@@ -211,11 +223,33 @@ def impl(case):
     spec = case['spec']
     f = pfile.build(spec)
     f.setCoords([v['name'] for v in spec['vars'] if v['dims'] == [v['name']]])
-    if case['op'] == ['query', 'getTimes']:
-        d0 = spec['dims'][0][0]
-        tv = f.createVariable('time', 'd', (d0,))
-        tv.units = 'hours since 2001-02-03 00:00:00+0000'
-        tv[:] = np.arange(spec['dims'][0][1]) * 6.
+    if case['op'][0] == 'query' and case['op'][1] in TIMEQ:
+        q = case['op'][1]
+        d0, n0 = spec['dims'][0][0], spec['dims'][0][1]
+        if q == 'getTimes_tflag':
+            f.createDimension('VAR', 1)
+            f.createDimension('DATE-TIME', 2)
+            tv = f.createVariable('TFLAG', 'i', (d0, 'VAR', 'DATE-TIME'))
+            tv[:, 0, 0] = 2019365
+            tv[:, 0, 1] = np.arange(n0) * 10000
+            f.TSTEP = 10000
+        elif q == 'getTimes_tau0':
+            tv = f.createVariable('tau0', 'd', (d0,))
+            tv.units = 'hours since 1985-01-01 00:00:00 UTC'
+            tv[:] = np.arange(n0) * 6.
+            tv = f.createVariable('tau1', 'd', (d0,))
+            tv.units = 'hours since 1985-01-01 00:00:00 UTC'
+            tv[:] = np.arange(n0) * 6. + 6
+        else:
+            tv = f.createVariable('time', 'd', (d0,))
+            tv.units = 'hours since 2001-02-03 00:00:00+0000'
+            tv[:] = np.arange(n0) * 6.
+            if q == 'getTimes_tb':
+                f.createDimension('nv', 2)
+                tb = f.createVariable('time_bounds', 'd', (d0, 'nv'))
+                tb.units = tv.units
+                tb[:, 0] = tv[:] - 3
+                tb[:, 1] = tv[:] + 3
     before = _snap(f)
     res = dict()
     with lib.pnc_warnings():
